@@ -352,6 +352,12 @@ func (o Outcome) Same(p Outcome) bool {
 // Do serves one body-less request in-process. The URL path is used verbatim
 // (no percent-decoding step), query is the raw query string.
 func (b *Built) Do(verb, path, query string, hdr http.Header) Outcome {
+	return b.DoWith(verb, path, query, hdr, nil)
+}
+
+// DoWith is Do with a last-minute modification of the request (transport
+// variants that must not change routing).
+func (b *Built) DoWith(verb, path, query string, hdr http.Header, mod func(*http.Request)) Outcome {
 	req := &http.Request{
 		Method:     verb,
 		URL:        &url.URL{Path: path, RawQuery: query},
@@ -372,6 +378,9 @@ func (b *Built) Do(verb, path, query string, hdr http.Header) Outcome {
 	id := strconv.FormatInt(atomic.AddInt64(&reqSeq, 1), 10)
 	req.Header["X-Vf-Req"] = []string{id}
 	req = req.WithContext(context.Background())
+	if mod != nil {
+		mod(req)
+	}
 	rec := httptest.NewRecorder()
 	var o Outcome
 	o.Panic = mon.Catch(func() { b.Mux.ServeHTTP(rec, req) })
